@@ -347,7 +347,12 @@ pub fn explore(pool: &Pool, spec: &Spec, kf: &Known) -> Outcome {
                         // a core FIFO discrepancy that this check does not own makes every
                         // other observation of the step unreliable: the branch is foreign
                         let foreign_core = all_ds.iter().any(|x| is_core(x.class) && !spec.owned.contains(&x.class));
-                        if !foreign_core {
+                        // a difference between the two backends is this check's business even
+                        // when one of them also departs from the reference model
+                        let backend_diff = all_ds.iter().find(|x| x.class == "backend.diff").cloned();
+                        if let Some(x) = backend_diff {
+                            bad = Some(x);
+                        } else if !foreign_core {
                             bad = all_ds.iter().find(|x| owned(spec, &node.model, &job.ops, x)).cloned();
                         } else {
                             model.broken = true;
@@ -653,7 +658,12 @@ fn run_probes_chunk(
                 let mut ops = node.ops.clone();
                 ops.push(p.clone());
                 ops.extend(suf.iter().cloned());
-                jobs.push(mk(jid, ops));
+                let mut j = mk(jid, ops);
+                // offset-addressed reads are stateless: the reclamation bookkeeping (block
+                // and file trackers of the digest) right after one must equal what it was
+                // right before it
+                j.digest_each = si == 0 && matches!(p, Op::BatchRead { start: Some(_), .. });
+                jobs.push(j);
                 meta.push((ni, Kind::WithPeek, pi, si));
             }
         }
@@ -704,6 +714,26 @@ fn run_probes_chunk(
                                 matches!(x.class, "offset.content" | "read.order" | "read.empty" | "read.panic" | "read.err" | "read.cap" | "read.budget" | "count")
                             }) {
                                 found = Some(Discrepancy { pure_loss: false, pure_redelivery: false, class: "peek.result", detail: format!("{}: {}", peek.short(), x.detail) });
+                            }
+                            if found.is_none() && hl >= 1 && res.digests.len() > hl {
+                                let parse = |t: &str| serde_json::from_str::<serde_json::Value>(t).ok();
+                                if let (Some(a), Some(b)) = (parse(&res.digests[hl - 1]), parse(&res.digests[hl])) {
+                                    if a["blocks"] != b["blocks"] || a["filestate"] != b["filestate"] {
+                                        found = Some(Discrepancy {
+                                            pure_loss: false,
+                                            pure_redelivery: false,
+                                            class: "reclaim.bookkeeping",
+                                            detail: format!(
+                                                "{} changed the reclamation bookkeeping: blocks {} -> {}, files {} -> {}",
+                                                peek.short(),
+                                                a["blocks"],
+                                                b["blocks"],
+                                                a["filestate"],
+                                                b["filestate"]
+                                            ),
+                                        });
+                                    }
+                                }
                             }
                             if found.is_none() {
                                 for j in 0..(base.obs.len() - hl) {
